@@ -420,12 +420,13 @@ def main():
             report_monitor(i, w)
         if (diffs or proof_broken) and not violations:
             # correspondence or proof broken: search for a failing input with the monitors
+            # (monitor hits so far, if any, were all known findings: they do not explain the break)
             found = False
-            if mon_hits:
-                found = True     # already reported (or known)
             if not found:
                 extra = []
                 for fam, nq, nt in cfg['families']:
+                    if nq == 0 and nt == 0:
+                        continue          # corpus-only family
                     kw = cfg.get('gen_kw', {}).get(fam, {})
                     extra += [(fam, s) for s in scen.generate(fam, f'{seed}-search', max(nq, 200), **kw)]
                 etexts = [scen.to_text(s) for _, s in extra]
